@@ -327,7 +327,7 @@ func report(id, tier string, seed int, cfg *Config, hdir string, results []*Entr
 			"functions_encoded": fnList, "bounds": bounds, "unwind": pick(cfg.Unwind, tier, 8),
 			"solvers": solverStats, "solver_s": round(solverS), "int_wraps_emitted": wraps,
 			"over_approximations": approx, "spurious": spurious, "known_findings": knownOut,
-			"entries": entries,
+			"entries":     entries,
 			"explanation": "bounded symbolic execution of the listed /repo functions (go/ssa -> SMT-LIB2); every branch feasibility and every assertion decided by cvc5/z3 over all values within the bounds; witnesses replayed natively",
 		},
 		"assumptions": assumeList,
